@@ -2690,6 +2690,100 @@ fn gen_badsend(o: &mut Out, r: &mut Rng, d: &GDict, tier: &str, uid: &mut u32) {
     }
 }
 
+/// one client object attached to several connections one after the other (switch-over, reconnect): all of them share the
+/// client's table of waiting requests. `clim <plan> <answers per connection> <stream>..`
+fn gen_clim(o: &mut Out, r: &mut Rng, d: &GDict, tier: &str, uid: &mut u32) {
+    let rounds = if tier == "thorough" { 150 } else { 6 };
+    let ends = ["e", "f", "d:01000003ffffffff,e", "s"];
+    for k in 0..rounds {
+        let mut ids: Vec<u32> = vec![];
+        while ids.len() < 6 {
+            let h = if k % 3 == 0 { 100 + ids.len() as u32 } else { r.next() as u32 };
+            if !ids.contains(&h) {
+                ids.push(h);
+            }
+        }
+        let len = |r: &mut Rng| *r.pick(&[0usize, 5, 40]);
+        let mut ans = |r: &mut Rng, h: u32| -> (String, String) {
+            *uid += 1;
+            let f = answer_frame(r, d, h, *uid);
+            let sm = r.below(5);
+            (seg(r, &f, sm).join(","), format!("{}:{}", h, *uid))
+        };
+        // (1) switch-over: a request outstanding on connection 0 when connection 1 is attached and used
+        for end0 in 0..3 {
+            for answered0 in [false, true] {
+                for late1 in [0u64, 5000] {
+                    let (l1, l2) = (len(r), len(r));
+                    let (a1, t1) = ans(r, ids[0]);
+                    let (a2, t2) = ans(r, ids[1]);
+                    let s0 = format!("w:{}{},{}", request_size(l1), if answered0 { format!(",{}", a1) } else { String::new() }, ends[end0]);
+                    let s1 = format!("w:{},t:{},{},{}", request_size(l2), late1, a2, ends[(k + end0) % 4]);
+                    o.case(&format!("multi switch end0={} answered0={} late1={}", end0, answered0 as u8, late1));
+                    o.line(&format!("clim a,s{}:{},a,s{}:{} {};{} {}/- {}/-", ids[0], l1, ids[1], l2, if answered0 { t1 } else { "-".to_string() }, t2, s0, s1));
+                }
+            }
+        }
+        // (2) the answer to a request written to connection 0 arrives on connection 1 (the table is shared)
+        {
+            let l1 = len(r);
+            let (a1, t1) = ans(r, ids[2]);
+            o.case("multi cross");
+            o.line(&format!("clim a,s{}:{},a,t100 -;{} s/- t:50,{},{}/-", ids[2], l1, t1, a1, ends[k % 4]));
+        }
+        // (3) the first connection ends before the second is attached: the table stays closed, later sends are refused
+        {
+            let (l1, l2) = (len(r), len(r));
+            o.case("multi closed-stays");
+            o.line(&format!("clim a,s{}:{},t1000,a,s{}:{},t1000,s{}:0 -;- w:{},{}/- s/-", ids[3], l1, ids[4], l2, ids[5], request_size(l1), ends[k % 3]));
+        }
+        // (4) a connection nobody reads from (no reader task for it), and a send before any connection exists
+        {
+            let (l1, l2) = (len(r), len(r));
+            let (a1, t1) = ans(r, ids[0]);
+            o.case("multi no-reader");
+            o.line(&format!("clim s{}:0,a,s{}:{},A,s{}:{},t100 {};- w:{},{},s/- -/-", ids[5], ids[0], l1, ids[1], l2, t1, request_size(l1), a1));
+        }
+        // (5) random: two or three connections, one or two requests each, answered on their own connection
+        for _ in 0..(if tier == "thorough" { 6 } else { 2 }) {
+            let nconn = 2 + r.below(2) as usize;
+            let mut plan: Vec<String> = vec![];
+            let mut streams: Vec<String> = vec![];
+            let mut answers: Vec<String> = vec![];
+            let mut idn = 0;
+            for c in 0..nconn {
+                plan.push("a".into());
+                let mut rd: Vec<String> = vec![];
+                let mut al: Vec<String> = vec![];
+                let mut acc = 0;
+                for _ in 0..1 + r.below(2) {
+                    let l = len(r);
+                    acc += request_size(l);
+                    plan.push(format!("s{}:{}", ids[idn % 6].wrapping_add(1000 * (idn as u32 / 6)), l));
+                    if r.chance(3, 4) {
+                        let (a, t) = ans(r, ids[idn % 6].wrapping_add(1000 * (idn as u32 / 6)));
+                        rd.push(format!("w:{}", acc));
+                        if r.chance(1, 3) {
+                            rd.push(format!("t:{}", r.pick(&[10u64, 700, 4000])));
+                        }
+                        rd.push(a);
+                        al.push(t);
+                    }
+                    idn += 1;
+                }
+                if r.chance(1, 3) {
+                    plan.push(format!("t{}", r.pick(&[5u64, 900, 6000])));
+                }
+                rd.push(ends[(r.below(4)) as usize].to_string());
+                streams.push(format!("{}/{}", rd.join(","), if c % 2 == 1 { "a5,p,a20" } else { "-" }));
+                answers.push(if al.is_empty() { "-".to_string() } else { al.join(",") });
+            }
+            o.case(&format!("multi random conns={}", nconn));
+            o.line(&format!("clim {} {} {}", plan.join(","), answers.join(";"), streams.join(" ")));
+        }
+    }
+}
+
 /// back-pressure in both directions: the stream takes the next request only after the client has read the answers the peer
 /// has already sent (a peer that finishes its batch of answers before it reads on). Sender and reader must not wait for
 /// each other.
@@ -3700,6 +3794,7 @@ pub fn generate(family: &str, seed: u64, tier: &str, extra: &[String], w: &mut d
             let mut uid = 700000u32;
             gen_reuse(&mut o, &mut r, &d0, tier, &mut uid);
             gen_badsend(&mut o, &mut r, &d0, tier, &mut uid);
+            gen_clim(&mut o, &mut r, &d0, tier, &mut uid);
             gen_backpressure(&mut o, &mut r, &d0, tier, &mut uid);
             gen_ctcp(&mut o, &mut r, tier, false);
         }
@@ -3713,6 +3808,7 @@ pub fn generate(family: &str, seed: u64, tier: &str, extra: &[String], w: &mut d
             let mut uid = 800000u32;
             gen_reuse(&mut o, &mut r, &d0, tier, &mut uid);
             gen_badsend(&mut o, &mut r, &d0, tier, &mut uid);
+            gen_clim(&mut o, &mut r, &d0, tier, &mut uid);
             gen_backpressure(&mut o, &mut r, &d0, tier, &mut uid);
             gen_ctcp(&mut o, &mut r, tier, true);
         }
